@@ -18,6 +18,7 @@ import (
 	"github.com/cnotch/ipchub/config"
 	"github.com/cnotch/ipchub/media"
 	"github.com/cnotch/ipchub/network/websocket"
+	"github.com/cnotch/ipchub/provider/auth"
 	"github.com/cnotch/ipchub/provider/security"
 	"github.com/cnotch/ipchub/service/rtsp"
 	"github.com/cnotch/ipchub/stats"
@@ -45,6 +46,8 @@ type Session struct {
 	lsession    string // 本地会话标识
 	timeout     time.Duration
 	conn        websocket.Conn
+	username    string // user the control channel was authenticated as
+	wsPath      string // path the control channel was opened on
 	lockW       sync.Mutex
 	dataChannel websocket.Conn
 
@@ -75,6 +78,8 @@ func newSession(svr *Server, conn websocket.Conn, channelID string) *Session {
 		lsession:  security.NewID().Base64(),
 		timeout:   config.NetTimeout() * time.Duration(2),
 		conn:      conn,
+		username:  conn.Username(),
+		wsPath:    conn.Path(),
 		transport: rtsp.RTPTransport{
 			Mode: rtsp.PlaySession, // 默认为播放
 			Type: rtsp.RTPUnknownTrans,
@@ -91,6 +96,26 @@ func newSession(svr *Server, conn websocket.Conn, channelID string) *Session {
 		xlog.F("path", conn.Path())))
 
 	return session
+}
+
+// acceptsDataChannel reports whether dc may become the data channel of this
+// session: with authentication enabled, only a connection that was opened by
+// the same user on the same path as the control channel.
+func (s *Session) acceptsDataChannel(dc websocket.Conn) bool {
+	if !config.Auth() {
+		return true
+	}
+	return dc.Username() == s.username && dc.Path() == s.wsPath
+}
+
+// checkPermission validates, against the rights as saved now, that the user
+// who opened the control channel may (still) pull the session's stream.
+func (s *Session) checkPermission() bool {
+	if !config.Auth() {
+		return true
+	}
+	u := auth.Get(s.username)
+	return u != nil && u.ValidatePermission(s.path, auth.PullRight)
 }
 
 // 设置rtp数据通道
@@ -277,6 +302,11 @@ func (s *Session) onDescribe(resp *rtsp.Response, req *rtsp.Request) {
 		return
 	}
 
+	if !s.checkPermission() {
+		resp.StatusCode = rtsp.StatusForbidden
+		return
+	}
+
 	// 从流中取 sdp
 	sdpRaw := stream.Sdp()
 	if len(sdpRaw) == 0 {
@@ -363,6 +393,13 @@ func (s *Session) onPlay(resp *rtsp.Response, req *rtsp.Request) {
 	stream := media.GetOrCreate(s.path)
 	if stream == nil {
 		resp.StatusCode = rtsp.StatusNotFound
+		return
+	}
+
+	// the right was checked when the WebSocket was opened; it may have been
+	// narrowed or the user deleted since
+	if !s.checkPermission() {
+		resp.StatusCode = rtsp.StatusForbidden
 		return
 	}
 
